@@ -19,6 +19,17 @@ STRENGTHENED = {
  ("C18","m1"): "double-large-prime runs + lines whose value is divisible by the square of a listed large prime always checked",
  ("C19","m3"): "random 16x16 relation lattices with |det| in chosen bit classes (2^62.4..2^63)",
  ("C20","m2"): "contract ACountFits: a_count <= C(4 nfacs, nfacs)",
+ # second round (r2*)
+ ("C04","r2m4"): "a crash of checked builds only: caught by C03 after abort-bounded 160..300-bit sieve inputs with pools were added (FactorShapes!BigSieveSet)",
+ ("C05","r2m2"): "the change makes the driver process die (SIGKILL by its own watchdog): begin markers turn the call in progress into a rejected 'killed' event",
+ ("C10","r2m4"): "quotient driven on every (p[0], q[0]) in {1, unit}^2 at lengths 2^k+1, 2^k+2 and neighbours (PolyShapes!QuotLead)",
+ ("C12","r2m2"): "tiny n (24..32 bits) for MPQS with D^2 < n < D^4: polynomials with C > 0 and D inside the factor base",
+ ("C13","r2m2"): "loss tolerance of a report computed from the root tables and the bucket parameters instead of the counters the code reports",
+ ("C14","r2m3"): "Lanczos variant with two equal last rows on row counts that are not a multiple of 64",
+ ("C15","r2m1"): "public conversion From<&ecm::Curve> driven on every small curve of both families: accepted => same group law",
+ ("C15","r2m3"): "two-word moduli with the top bit set (2^128 - 159, (2^64-59)(2^64-83))",
+ ("C16","r2m3"): "B1 = q^k + 1 configurations for every method",
+ ("C19","r2m3"): "weighted cyclic shift matrices in both orientations (Berlekamp-Massey quotients of degree >= 2)",
 }
 rows = []
 for f in sorted(glob.glob(os.path.join(os.path.dirname(__file__), "..", "seeded", "*", "*", "meta.json"))):
